@@ -224,3 +224,76 @@ def _atom_eq(eng, m, args, fr, dty):
     a, b = eng.deref(args[0], fr), eng.deref(args[1], fr)
     e = items_eq(eng, items_of(eng, a.fields[0], fr), items_of(eng, b.fields[0], fr))
     return Bool(z3.Not(e) if m.group(3) == 'ne' else e)
+
+
+# ---- more of the Allocator API (used by clvmr's run_program and operators)
+@model(r'^(clvm_rs::|clvmr::)?(allocator::)?Allocator::(add_ghost_atom|add_ghost_pair|remove_ghost_pair)$')
+def _alloc_ghost(eng, m, args, fr, dty):
+    return Ok(UNIT)
+
+
+@model(r'^(clvm_rs::|clvmr::)?(allocator::)?Allocator::(checkpoint|restore_checkpoint)$')
+def _alloc_checkpoint(eng, m, args, fr, dty):
+    return Opaque('Checkpoint') if m.group(3) == 'checkpoint' else UNIT
+
+
+@model(r'^(clvm_rs::|clvmr::)?(allocator::)?Allocator::next$')
+def _alloc_next(eng, m, args, fr, dty):
+    n = args[1]
+    if n.kind == 'pair':
+        return Some(Tup(n.a, n.b))
+    return NONE()
+
+
+@model(r'^(clvm_rs::|clvmr::)?(allocator::)?Allocator::node$')
+def _alloc_node(eng, m, args, fr, dty):
+    n = args[1]
+    if n.kind == 'pair':
+        return Enum('allocator::NodeVisitor', 'Pair', [n.a, n.b])
+    s, v = small_formula(n.atom)
+    if eng.branch_bool(s):
+        return Enum('allocator::NodeVisitor', 'U32', [Int(v, 32, False)])
+    return Enum('allocator::NodeVisitor', 'Buffer', [Slice(Ref(n.cell), 0, len(n.atom))])
+
+
+@model(r'^(clvm_rs::|clvmr::)?(allocator::)?Allocator::atom_eq$')
+def _alloc_atom_eq(eng, m, args, fr, dty):
+    from .models_vec import items_eq
+    a, b = args[1], args[2]
+    if a.kind != 'atom' or b.kind != 'atom':
+        raise PathEnd('panic', 'atom_eq() called on pair')
+    return Bool(items_eq(eng, a.atom, b.atom))
+
+
+@model(r'^(clvm_rs::|clvmr::)?(allocator::)?Allocator::new_concat$')
+def _alloc_new_concat(eng, m, args, fr, dty):
+    new_size = args[1]
+    nodes = items_of(eng, args[2], fr)
+    out = []
+    for n in nodes:
+        n = eng.deref(n, fr)
+        if n.kind != 'atom':
+            return Err(Enum('error::EvalErr', 'InternalError', [n, Opaque('new_concat on pair')]))
+        out.extend(n.atom)
+    if eng.branch_bool(new_size.e != len(out)):
+        return Err(Enum('error::EvalErr', 'InternalError', [nil_node(), Opaque('new_concat size mismatch')]))
+    return Ok(atom_node(out))
+
+
+@model(r'^(clvm_rs::|clvmr::)?(allocator::)?Allocator::new_substr$')
+def _alloc_new_substr(eng, m, args, fr, dty):
+    n = args[1]
+    if n.kind != 'atom':
+        return Err(Enum('error::EvalErr', 'InternalError', [n, Opaque('substr on pair')]))
+    ln = len(n.atom)
+    s = eng.concretize(args[2], 0, ln + 1)
+    e = eng.concretize(args[3], 0, ln + 1)
+    if s > ln or e > ln or e < s:
+        return Err(Enum('error::EvalErr', 'InvalidAllocArg', [n, Opaque('substr bounds')]))
+    return Ok(atom_node(list(n.atom[s:e])))
+
+
+@model(r'^(clvm_rs::|clvmr::)?(allocator::)?NodePtr::(is_atom|is_pair)$')
+def _nodeptr_kind(eng, m, args, fr, dty):
+    n = eng.deref(args[0], fr)
+    return mkbool((n.kind == 'atom') == (m.group(3) == 'is_atom'))
